@@ -12,5 +12,15 @@ for l in open('/verif/properties.jsonl'):
         prop="%s — %s\n\n%s\n\nQuantified over: %s\n"%(d['id'],d['title'],d['statement'],d['quantifier']['text'])
 t=open('/verif/tools/agent_prompt_template.txt').read()
 open('/tmp/agent-%s.txt'%lc,'w').write(t.replace('__WT__','/tmp/wt-%s'%lc).replace('__PROP__',prop).replace('__ID__',id))
+import glob
+prev=[]
+for f in sorted(glob.glob('/verif/seeded/agent-%s-*/meta.json'%id.lower())):
+    try: prev.append(json.load(open(f)).get('summary','')[:420])
+    except Exception: pass
+if prev:
+    with open('/tmp/agent-%s.txt'%lc,'a') as o:
+        o.write("\n\nIMPORTANT — earlier, independent attempts at this task already used the following ideas, so you must pick a DIFFERENT mechanism (preferably in a different function or file, exercising a different part of the property's statement):\n")
+        for x in prev: o.write('  - "%s"\n'%x.replace('\n',' '))
+        o.write("Also note: test binaries of this project ignore SIGTERM (use `kill -9` if you must stop one), several other agents are running test suites on this machine at the same time, so use generous timeouts in your demo; and the `\":!_seed\"` pathspec does not work in this git: use `git diff -- . \":(exclude)_seed\"`.\n")
 print('/tmp/agent-%s.txt'%lc)
 PY
